@@ -286,6 +286,7 @@ func runC07(c *Ctx) {
 			return &asm.Instr{Labels: labels, Op: "dat", A: asm.Operand{Mode: '#', E: asm.Lit{V: 0}}, B: &asm.Operand{Mode: '#', E: asm.Lit{V: 0}}}
 		}
 		kind := ""
+		scatter := false
 		switch {
 		case probe < 6: // operand fields
 			kind = "operand"
@@ -334,10 +335,18 @@ func runC07(c *Ctx) {
 				c.Inc("asserts_inside_for_bodies")
 			} else {
 				p.Asserts = []asm.Expr{e1}
+				if r.Chance(1, 3) {
+					// the assert line may follow a label that stands on a line of its own
+					p.Items = append(p.Items, dat("own"))
+					scatter = true
+				}
 			}
 			p.Items = append(p.Items, dat())
 		}
 		st := &asm.Style{R: r, Spacing: r.Intn(3), Case: r.Intn(3), WithEnd: r.Bool()}
+		if scatter {
+			st.OwnLinePct, st.ScatterDirectives = 100, true
+		}
 		text := asm.Render(p, st)
 		mn, merr := p.Meaning()
 		if kind == "for" {
